@@ -765,7 +765,7 @@ def unpack_uint(chunk):
 # --------------------------------------------------------------------------------------------
 # struct shim
 # --------------------------------------------------------------------------------------------
-_EVIEW = [None, None, None]      # [EView class, alloc(total), EBlob class] - filled in by symex.elastic users (api.py)
+_EVIEW = [None, None, None, None, None]      # [EView class, alloc(total), EBlob class] - filled in by symex.elastic users (api.py)
 _FMT = {'B': 1, 'H': 2, 'I': 4, 'L': 4, 'Q': 8}       # unsigned, network order ('L' is 4 bytes with '!')
 
 
@@ -1024,7 +1024,7 @@ def s_isinstance(obj, cls):
     c = obj.__class__
     if c is SInt:
         return _int in _norm(cls)
-    if c is SBytes or c is _EVIEW[0] or c is _EVIEW[2]:
+    if c is SBytes or c is _EVIEW[0] or c is _EVIEW[2] or c is _EVIEW[3]:
         return _KIND[obj.kind] in _norm(cls)
     if c is SBool:
         cs = _norm(cls)
@@ -1044,7 +1044,7 @@ def s_isinstance2(obj, cls):
 
 def _isinstance_shim(obj, cls):
     c = obj.__class__
-    if c is SInt or c is SBytes or c is SBool or c is _EVIEW[0] or c is _EVIEW[2]:
+    if c is SInt or c is SBytes or c is SBool or c is _EVIEW[0] or c is _EVIEW[2] or c is _EVIEW[3]:
         return s_isinstance(obj, cls)
     if cls.__class__ is tuple or cls in _BACK:
         return _isinstance(obj, _norm(cls))
@@ -1083,6 +1083,8 @@ class SymIO:
 
 def sym_join(sep, parts):
     parts = list(parts)
+    if any(p.__class__ is _EVIEW[0] or p.__class__ is _EVIEW[2] or p.__class__ is _EVIEW[3] for p in parts):
+        return _EVIEW[4](_bytes(sep), parts)
     if not any(_isinstance(p, SBytes) for p in parts):
         return sep.join(parts)
     out = []
